@@ -40,7 +40,7 @@ class Sim:
             rec = img.records[k]
             base = t0 + (k - first_rec + 1) * wd["period"]
             rnd = random.Random(kernel.H("split", wd["split_seed"], k))
-            nsplit = rnd.choice([0, 0, 1, 2])
+            nsplit = rnd.choice([1, 2, 2, 3, 4]) if self.des.get("dense_splits") else rnd.choice([0, 0, 1, 2])
             cuts = sorted(set(rnd.randrange(1, len(rec)) for _ in range(nsplit))) if len(rec) > 1 else []
             parts = []
             prev = 0
